@@ -175,7 +175,7 @@ func checkC07(r *Run) {
 			in, _ := materializeAM(filepath.Join(sub, "in"), am, formats[i])
 			inputs = append(inputs, in)
 		}
-		base := pipeCfg{Inputs: inputs, Types: true, Builders: true, Converters: si%2 == 0}
+		base := pipeCfg{Inputs: inputs, Types: true, Builders: true, Converters: si%2 == 0, APIReference: si%3 != 0}
 		base.Langs = langCfgs(langNames...)
 		all := run(sub, base, "all-languages")
 		if all.Err != nil || all.Panic != nil {
